@@ -153,6 +153,7 @@ fn main() {
     }
     shared_reader_schedules(&mut rng, &mut out, if thorough { 200 } else { 40 });
     mmap_lock_schedules(&mut rng, &mut out, if thorough { 60 } else { 12 });
+    lockfile_meta_lock_schedules(&mut rng, &mut out, if thorough { 200 } else { 40 });
     out.finish(json!({"tier": args.tier, "seed": args.seed}));
 }
 
@@ -327,5 +328,39 @@ fn mmap_lock_schedules(rng: &mut Rng, out: &mut CaseOut, n: usize) {
         let _ = rel_tx.send(());
         let _ = b.join();
         out.count("mmap_lock_schedules", 1);
+    }
+}
+
+/// META_LOCK through the DEFAULT lock-file protocol (RamDirectory and every Directory without its own acquire_lock): a
+/// reload holds it; refused attempts (a collection that finds it busy) must leave the holder's lock in place.
+fn lockfile_meta_lock_schedules(rng: &mut Rng, out: &mut CaseOut, n: usize) {
+    use tantivy::directory::error::LockError;
+    use tantivy::directory::{Directory, DirectoryLock, Lock, META_LOCK};
+    for _ in 0..n {
+        let vd = VerifDirectory::new();
+        let try_lock = Lock { filepath: META_LOCK.filepath.clone(), is_blocking: false };
+        let mut holder: Option<DirectoryLock> = None;
+        let mut evs: Vec<String> = vec![];
+        let mut ok = true;
+        let mut why = String::new();
+        for step in 0..rng.range(3, 10) {
+            if holder.is_none() || rng.chance(2, 3) {
+                let r = vd.acquire_lock(&try_lock);
+                match (&holder, r) {
+                    (None, Ok(g)) => { holder = Some(g); evs.push("acquire: granted".into()); }
+                    (None, Err(e)) => { ok = false; why = format!("step {step}: the lock is free but the attempt failed: {e:?}"); break; }
+                    (Some(_), Err(LockError::LockBusy)) => { evs.push("acquire: busy".into()); }
+                    (Some(_), Ok(_)) => { ok = false; why = format!("step {step}: META_LOCK granted although a holder is alive (an earlier refused attempt removed the holder's lock file?)"); break; }
+                    (Some(_), Err(e)) => { ok = false; why = format!("step {step}: unexpected error {e:?}"); break; }
+                }
+                let exists = vd.raw(&META_LOCK.filepath.to_string_lossy()).is_some();
+                if holder.is_some() && !exists { ok = false; why = format!("step {step}: the holder is alive but its lock file is gone"); break; }
+            } else {
+                holder = None;
+                evs.push("release".into());
+            }
+        }
+        out.spec_checked(ok, json!({"what": "META_LOCK (default lock-file protocol) does not exclude: a refused attempt disturbed the holder", "why": why, "events": evs}));
+        out.count("lockfile_meta_lock_schedules", 1);
     }
 }
